@@ -54,6 +54,7 @@ func GenConfig(rng *vbase.Rng, profile string) Config {
 	if profile == "fault-free-sync" {
 		return cfg
 	}
+	cfg.FetchLoss = []int{0, 0, 15, 40}[rng.Intn(4)]
 	// place at most f faulty replicas
 	perm := rng.Perm(cfg.N)
 	nf := rng.Range(0, f)
